@@ -12,7 +12,7 @@ import vlsir.circuit_pb2 as vckt
 # HDL
 from ..prefix import Prefix, Prefixed
 from ..module import Module
-from ..external_module import ExternalModule
+from ..external_module import ExternalModule, SpiceType
 from ..instance import Instance
 from ..signal import Signal, PortDir, Visibility
 from ..slice import Slice
@@ -87,6 +87,7 @@ class ProtoImporter:
             desc=pmod.desc,
             port_list=port_list,
             paramtype=dict,  # FIXME: should these be stored in the serialization schema?
+            spicetype=import_spicetype(pmod.spicetype),
         )
         # Give it a (non-initializer) value for its `importpath`
         emod._importpath = [pmod.name.domain]
@@ -211,6 +212,14 @@ def import_ports_and_signals(
         signals[pport.signal].vis = Visibility.PORT
 
     return list(signals.values())
+
+
+def import_spicetype(pspicetype: vckt.SpiceType) -> SpiceType:
+    """Import an enumerated `SpiceType`, the inverse of `SpiceType.to_schema`."""
+    for spicetype in SpiceType:
+        if spicetype.to_schema() == pspicetype:
+            return spicetype
+    raise ValueError(f"Invalid SpiceType {pspicetype}")
 
 
 def import_hdl21_primitive(pref: vlsir.utils.QualifiedName) -> Primitive:
